@@ -4,6 +4,7 @@ import HexProofs.Numeric.Channel
 import HexProofs.Numeric.Extremes
 import HexProofs.Numeric.Stdev
 import HexProofs.Numeric.Supertrend
+import HexProofs.Numeric.SeriesMore
 import HexProofs.Numeric.Demo
 /-
 C05 – Volatility, range, channel and utility indicators match their definitions
@@ -12,9 +13,12 @@ outside these theorems – see HexProofs/Numeric/Lawful.lean).
 
 Per `_calculate_reading` call: given the readings the method reads, the returned value is the
 textbook expression.  Indicators covered: TR, ATR, STDEV, BBANDS, KC, Donchian, HighestLowest,
-HLA, Supertrend, STDEV-threshold, Counter.  Missing for the full property (`C05_FULL`): the
-induction along the framework's calculation order that turns the per-call facts into facts about
-whole `as_list()` series and their warm-up indices.
+HLA, Supertrend, STDEV-threshold, Counter.  For the two leaf indicators that read only candle
+fields – HLA and TR – the WHOLE-SERIES statements are proved too (`hla_series`, `tr_series`, on the
+row-major spec that C01 ties to `calculate()`).  Missing for the full property (`C05_FULL`): the
+induction along the framework's calculation order for the indicators with sub-indicators and
+managed helper series (ATR over its TR helper, STDEV, BBANDS, KC, Supertrend, STDEV-threshold) and
+for Donchian / HighestLowest / Counter, i.e. whole `as_list()` series and warm-up indices.
 -/
 namespace Hex.C05
 open Hex Hex.Numeric
@@ -256,12 +260,66 @@ example : Calc.counter (Demo.ctx "COUNT") "close" (.num (.int 15)) = .ok (.int 3
   have := counter (Demo.ctx "COUNT") "close" (.num (.int 15)) (.num (.int 15)) (.int 2) rfl rfl (Or.inr ⟨2, rfl⟩)
   rw [this]; rfl
 
-/-- The full property: for every well-formed stream and every period/multiplier ≥ 2 the whole
-`as_list()` series of the eleven indicators equal their textbook series within rounding error,
-with the first reading at the documented warm-up index.  MISSING: the induction along the
-framework's calculation order (sub-indicators first, each index once, helper series written
-before they are read) – the framework refinement of HexProofs/Framework. -/
+/-! ### whole series -/
+
+/-- **HLA, whole series**: every candle of every raw stream gets `round((high + low)/2)`. -/
+theorem hla_series (nm : String) (n : Nat) (hk : IsKey nm)
+    (raw : List (Candle K)) (hraw : ∀ c ∈ raw, Plain c) :
+    ∃ vs : List (Val K), vs.length = raw.length ∧
+      rowMajor (mkTop .hla nm n) raw = .ok (deco nm raw vs) ∧
+      ∀ j, j < raw.length → vs.getD j .none =
+        .flt (PyF.round n ((fieldAt (·.h) raw j + fieldAt (·.l) raw j) / 2)) :=
+  Numeric.hla_series nm n hk raw hraw
+
+/-- **TR, whole series**: `None` on the first candle (no previous close), from the second candle
+on the true range (ints stay ints, floats are rounded). -/
+theorem tr_series (nm : String) (n : Nat) (hk : IsKey nm)
+    (raw : List (Candle K)) (hraw : ∀ c ∈ raw, Plain c) :
+    ∃ vs : List (Val K), vs.length = raw.length ∧
+      rowMajor (mkTop .tr nm n) raw = .ok (deco nm raw vs) ∧
+      ∀ j, j < raw.length →
+        (j = 0 → vs.getD j .none = .none) ∧
+        (1 ≤ j → ∃ t : Num K, vs.getD j .none = .num (t.roundBy n) ∧
+          t.toF = trAt (fieldAt (·.h) raw) (fieldAt (·.l) raw) (fieldAt (·.c) raw) j) :=
+  Numeric.tr_series nm n hk raw hraw
+
+/-- four raw candles over ℚ -/
+def demoRaw : List (Candle ℚ) :=
+  [Demo.mk 10 12 9 11 100, Demo.mk 11 13 10 12 200, Demo.mk 12 15 11 14 300, Demo.mk 14 16 13 15 0]
+
+theorem demoRaw_plain : ∀ c ∈ demoRaw, Plain c := by
+  intro c hc
+  simp only [demoRaw, List.mem_cons, List.not_mem_nil, or_false] at hc
+  rcases hc with rfl | rfl | rfl | rfl <;> exact ⟨rfl, rfl⟩
+
+example : ∃ vs : List (Val ℚ), vs.length = demoRaw.length ∧
+    rowMajor (mkTop .tr "TR" 4) demoRaw = .ok (deco "TR" demoRaw vs) ∧
+    ∀ j, j < demoRaw.length →
+      (j = 0 → vs.getD j .none = .none) ∧
+      (1 ≤ j → ∃ t : Num ℚ, vs.getD j .none = .num (t.roundBy 4) ∧
+        t.toF = trAt (fieldAt (·.h) demoRaw) (fieldAt (·.l) demoRaw) (fieldAt (·.c) demoRaw) j) :=
+  tr_series "TR" 4 (by decide) demoRaw demoRaw_plain
+
+/-- The full property, stated for ATR (the other ten indicators: the same shape with their own
+exact series – window extremes for Donchian/HighestLowest, `sqrt` of the window's population
+variance for STDEV, SMA ∓ 2σ, EMA ∓ m·ATR, the ratcheted HL2 ∓ m·ATR bands, the threshold flag, the
+run length): for every raw stream and `period ≥ 2` the ENGINE `calculate` never raises and stores
+`None` on the first `period` candles (TR needs a previous close) and afterwards a float within
+`ε·period` of Wilder's average of the true ranges seeded by the mean of the first `period` of them.
+NOT proved.  Proved instead: every single `_calculate_reading` call of all eleven indicators
+(`tr` … `counter` above), the exactness of STDEV's running update, the whole series for HLA and TR.
+Missing: the framework induction through sub-indicators and managed helper series. -/
 def C05_FULL : Prop :=
-  ∀ (K : Type) [Field K] [LinearOrder K] [IsStrictOrderedRing K] [LawfulPyF K], True
+  ∀ (K : Type) [Field K] [LinearOrder K] [IsStrictOrderedRing K] [LawfulPyF K]
+    (p : Nat) (nm : String) (n : Nat) (raw : List (Candle K)),
+    2 ≤ p → IsKey nm → (∀ c ∈ raw, Plain c) →
+    ∃ out : List (Candle K), calculate (fuelFor raw) (mkTop (.atr p) nm n) raw = .ok out ∧
+      out.length = raw.length ∧
+      ∀ j, j < raw.length →
+        RecOK (p + 1) n (1 / (p : K))
+          (fun t => recExact (1 / (p : K))
+            (winMean (fun i => trAt (fieldAt (·.h) raw) (fieldAt (·.l) raw) (fieldAt (·.c) raw) (i + 1)) p (p - 1))
+            (fun i => trAt (fieldAt (·.h) raw) (fieldAt (·.l) raw) (fieldAt (·.c) raw) (i + 1)) p (t - 1))
+          j (readingByCandle (out.getD j default) nm)
 
 end Hex.C05
